@@ -213,6 +213,19 @@ func (w *World) nonNilErr(v, given ssa.Value, phiRes map[*ssa.Phi]ssa.Value, dep
 			if qualifiedFnName(sc) == "errors.New" || qualifiedFnName(sc) == "fmt.Errorf" {
 				return true
 			}
+		} else if !x.Common().IsInvoke() {
+			// a function value (`p.keyFailed(err)`): every function the call graph
+			// resolves it to never returns a nil error
+			cs := w.calleesOf(x)
+			all := len(cs) > 0
+			for _, c := range cs {
+				if !w.neverNilErr(w.throughWrapper(c), depth+1) {
+					all = false
+				}
+			}
+			if all {
+				return true
+			}
 		}
 	case *ssa.Extract:
 		if call, ok := x.Tuple.(*ssa.Call); ok {
